@@ -225,6 +225,12 @@ func (r *run) keysH(c context.Context, ctx *app.RequestContext) {
 				if g == 0 {
 					kindOf = 0
 				}
+				if kindOf == 4 && g != 1 {
+					// Copy is taken by ONE goroutine (concurrently with the writers' Set, which its RLock is for): Copy is
+					// not read-only on the original (RequestHeader/ResponseHeader.CopyTo allocate the original's Trailer
+					// lazily), so two simultaneous Copy calls on one context race with each other -- not a promised use
+					kindOf = 2
+				}
 				switch kindOf {
 				case 0, 1: // Get / Value / GetInt64 of one key
 					key, which := ka(w), "a"
